@@ -1,6 +1,6 @@
 (* C05 / C10 (annotation parts): Annotation.co_iter and Annotation.get_overlap. *)
 From PV Require Import Model.AnnotationOps Proofs.SegmentP Proofs.SortedP Proofs.TimelineInvP Proofs.SupportP
-  Proofs.CropP Proofs.GapsP Proofs.DictP Proofs.AnnotationInvP Proofs.CooccurrenceP Proofs.AnnCropP.
+  Proofs.CropP Proofs.GapsP Proofs.DictP Proofs.AnnotationInvP Proofs.CooccurrenceP Proofs.AnnCropP Proofs.GeneratorsP.
 
 Section AnnCo.
 Variable eps : Z.
@@ -135,3 +135,28 @@ Proof.
   exists o. split; [exact Io|]. unfold sand in So. pairs. lia.
 Qed.
 End AnnOverlapEps.
+
+(* the label request of get_overlap(labels) is read as a set: order and repetitions do not matter *)
+Lemma name_in_ext l1 l2 : (forall x, In x l1 <-> In x l2) -> forall n, name_in n l1 = name_in n l2.
+Proof.
+  intros H n. destruct (name_in n l1) eqn:E1, (name_in n l2) eqn:E2; try reflexivity.
+  - apply name_in_In, H, name_in_In in E1. congruence.
+  - apply name_in_In, H, name_in_In in E2. congruence.
+Qed.
+Theorem subset_ann_request_is_a_set eps a l1 l2 inv : (forall x, In x l1 <-> In x l2) ->
+  subset_ann eps a l1 inv = subset_ann eps a l2 inv.
+Proof.
+  intro H. unfold subset_ann. destruct (labels eps a) as [a1 all].
+  assert (E : forall l, name_in l l1 = name_in l l2) by (apply name_in_ext; exact H).
+  replace (filter (fun l => negb (name_in l l1)) all) with (filter (fun l => negb (name_in l l2)) all)
+    by (apply filter_ext; intro l; now rewrite E).
+  replace (filter (fun l => name_in l l1) all) with (filter (fun l => name_in l l2) all)
+    by (apply filter_ext; intro l; now rewrite E).
+  reflexivity.
+Qed.
+Theorem get_overlap_request_is_a_set eps a l1 l2 : l1 <> [] -> l2 <> [] -> (forall x, In x l1 <-> In x l2) ->
+  get_overlap_ann eps a (Some l1) = get_overlap_ann eps a (Some l2).
+Proof.
+  intros N1 N2 H. unfold get_overlap_ann. destruct l1 as [|x1 r1]; [congruence|]. destruct l2 as [|x2 r2]; [congruence|].
+  now rewrite (subset_ann_request_is_a_set eps a (x1 :: r1) (x2 :: r2) false H).
+Qed.
